@@ -18,6 +18,14 @@ def handleTB (fs : List (List String)) : Option String :=
     let v := flts mat
     let M : List (List Float) := (List.range n).map fun i => (v.drop (i * n)).take n
     some ("R " ++ rowsOut (neighbor M n).rows)
+  | [["dec"], [n], ids, brs] =>
+    -- path lengths of the tree a tree matrix describes (rows given as ids `a b …` and branch lengths `fa fb …`)
+    let n := nat! n
+    let is := ids.map fun x => nat! x
+    let bs := flts brs
+    let rows : List (Row Float) := (List.range (is.length / 2)).map fun t =>
+      (is.getD (2 * t) 0, is.getD (2 * t + 1) 0, bs.getD (2 * t) 0.0, bs.getD (2 * t + 1) 0.0)
+    some ("D " ++ " ; ".intercalate ((decode n rows).dists.map fun e => s!"{e.1.1} {e.1.2} {fltOut e.2}"))
   | _ => none
 
 end Verif.Driver
